@@ -81,3 +81,66 @@ fn pn_expand_exact() {
     let got = pn.expand(expected);
     assert!(got == n, "expanded packet number differs from the one sent");
 }
+
+/// Mock header-protection key with the slicing behaviour of the real rustls implementation (crypto/rustls.rs): it reads a
+/// 16-byte sample starting 4 bytes after the packet-number offset and rewrites the first byte and up to 4 packet-number bytes.
+struct MockHeaderKey;
+impl crate::crypto::HeaderKey for MockHeaderKey {
+    fn decrypt(&self, pn_offset: usize, packet: &mut [u8]) {
+        let (header, sample) = packet.split_at_mut(pn_offset + 4);
+        let (first, rest) = header.split_at_mut(1);
+        let pn_end = Ord::min(pn_offset + 3, rest.len());
+        let s = &sample[..self.sample_size()];
+        // "decryption": any first byte (so every packet-number length is exercised), mask the packet-number bytes with the sample
+        first[0] = vk::any();
+        let mut i = 0;
+        for b in rest[pn_offset - 1..pn_end].iter_mut() {
+            *b ^= s[i];
+            i += 1;
+        }
+    }
+    fn encrypt(&self, _pn_offset: usize, _packet: &mut [u8]) {}
+    fn sample_size(&self) -> usize {
+        16
+    }
+}
+
+fn decrypt_header_case<const N: usize>() {
+    let data = [0x5au8; N];
+    let len: usize = vk::any();
+    vk::assume(len <= N);
+    let pn_offset: usize = vk::any();
+    // the caller has already parsed at least the first header byte, and never beyond the packet
+    vk::assume(pn_offset >= 1 && pn_offset <= len);
+    let mut bytes = BytesMut::from(&data[..]);
+    bytes.truncate(len);
+    let mut buf = io::Cursor::new(bytes);
+    buf.set_position(pn_offset as u64);
+    vk::vk_cover!(len == pn_offset + 4 + 16);
+    let r = PartialDecode::decrypt_header(&mut buf, &MockHeaderKey);
+    match r {
+        Ok(pn) => {
+            assert!(len >= pn_offset + 4 + 16, "accepted a packet too short for the header protection sample");
+            assert!(buf.position() as usize == pn_offset + pn.len(), "packet number length");
+            assert!(buf.position() as usize <= len);
+        }
+        Err(_) => assert!(len < pn_offset + 4 + 16, "rejected a packet that carries a full sample"),
+    }
+    core::mem::forget(buf);
+}
+
+// @harness decrypt_header_total_24 props=C03,C10 tier=quick kind=proof timeout=900 fn="PartialDecode::decrypt_header" desc="for every packet of 0..=24 bytes and every packet-number offset >= 1 inside it: a packet too short for the header-protection sample (offset + 4 + sample size) is rejected without touching the key, otherwise the header key only reads/writes inside the packet (slice bounds of the real rustls impl) and the packet number is decoded within the packet; never panics (the sample window, 16 bytes, fits for offsets 1..=4; larger packets in the thorough tier)"
+#[cfg_attr(kani, kani::proof)]
+#[cfg_attr(kani, kani::unwind(26))]
+#[cfg_attr(verif_replay, test)]
+fn decrypt_header_total_24() {
+    decrypt_header_case::<24>();
+}
+
+// @harness decrypt_header_total_40 props=C03,C10 tier=thorough kind=proof timeout=1800 fn="PartialDecode::decrypt_header" desc="same contract for every packet of 0..=40 bytes (offsets up to 20, i.e. the largest connection-ID length)"
+#[cfg_attr(kani, kani::proof)]
+#[cfg_attr(kani, kani::unwind(42))]
+#[cfg_attr(verif_replay, test)]
+fn decrypt_header_total_40() {
+    decrypt_header_case::<40>();
+}
